@@ -535,6 +535,57 @@ pub fn main(args: &Args) -> usize {
                 run_spec(&mut out, run, spec);
             }
         }
+        // C15: every template over the grid can be serialised; parameter values show; clones are identical
+        "ser" => {
+            let dir = std::path::Path::new(&args.str("out")).parent().map(|p| p.to_path_buf()).unwrap_or_default();
+            let mut keys: HashMap<String, i64> = HashMap::new();
+            let mut sers: HashMap<String, i64> = HashMap::new();
+            for (k, spec) in read_ndjson(&args.str("in")).iter().enumerate() {
+                let name = spec["template"].as_str().unwrap();
+                let params = &spec["params"];
+                let n = spec["n"].as_u64().unwrap() as u32;
+                macro_rules! facts {
+                    ($cfg:expr) => {{
+                        match $cfg {
+                            Err(e) => (0i64, 0i64, format!("ctor: {e:#}"), String::new()),
+                            Ok(config) => {
+                                let p1 = dir.join(format!("cfg-{}-{k}.ron", std::process::id()));
+                                let p2 = dir.join(format!("cfg-{}-{k}.clone.ron", std::process::id()));
+                                let r1 = match config.to_ron(&p1) {
+                                    Ok(()) => std::fs::read_to_string(&p1).ok(),
+                                    Err(e) => {
+                                        if std::env::var("VERIF_DEBUG").is_ok() {
+                                            eprintln!("to_ron failed: {e:#}");
+                                        }
+                                        None
+                                    }
+                                };
+                                let cl = config.clone();
+                                let r2 = cl.to_ron(&p2).ok().and_then(|_| std::fs::read_to_string(&p2).ok());
+                                let _ = std::fs::remove_file(&p1);
+                                let _ = std::fs::remove_file(&p2);
+                                let named = to_named(config.heuristic()).map(|v| v.to_string()).unwrap_or_default();
+                                let named2 = to_named(cl.heuristic()).map(|v| v.to_string()).unwrap_or_default();
+                                let same = (r1.is_some() && r1 == r2 && named == named2) as i64;
+                                (r1.is_some() as i64, same, r1.unwrap_or_default(), named)
+                            }
+                        }
+                    }};
+                }
+                let (ron_ok, clone_same, ron, named) = match spec["prob"]["kind"].as_str().unwrap() {
+                    "real" => facts!(real_template::<RealProblem>(name, params, n)),
+                    "bits" => facts!(bit_template::<BitProblem>(name, params, n)),
+                    _ => facts!(perm_template::<TspProblem>(name, params, n)),
+                };
+                let key = format!("{name}|{params}|{n}");
+                let nk = keys.len() as i64 + 1;
+                let key_id = *keys.entry(key).or_insert(nk);
+                let ns = sers.len() as i64 + 1;
+                let ser_id = *sers.entry(format!("{ron}#{named}")).or_insert(ns);
+                out.emit(&json!({"run": k, "t": name, "params": params, "n": n, "key": key_id, "ser": ser_id,
+                                 "ron_ok": ron_ok, "clone_same": clone_same}));
+            }
+        }
         // only the serialised component trees of the templates (Wiring)
         "trees" => {
             for (k, spec) in read_ndjson(&args.str("in")).iter().enumerate() {
